@@ -255,7 +255,10 @@ def count_statements(vfile):
 # --------------------------------------------------------------------------
 def run_model(lines, group="core"):
     """lines: list of 'entry ints | hexfloats' -> list of ('OK',[floats]) | ('ERR',name)"""
-    p = subprocess.run([os.path.join(EXTRACT, group, "driver")], input="\n".join(lines) + "\n",
+    # extracted list functions are not tail recursive: large cases (1e5 grains) need a big stack
+    drv = os.path.join(EXTRACT, group, "driver")
+    p = subprocess.run(["bash", "-c", f"ulimit -s unlimited 2>/dev/null || ulimit -s 1000000 2>/dev/null; exec {drv}"],
+                       input="\n".join(lines) + "\n",
                        stdout=subprocess.PIPE, stderr=subprocess.PIPE, text=True, timeout=3600)
     if p.returncode != 0:
         raise RuntimeError("model driver failed: " + p.stderr[-2000:])
